@@ -13,12 +13,13 @@ import Driver.EOQ
 import Driver.GSM
 import Driver.Demand
 import Driver.SSM
+import Driver.SingleStage
 open Lean
 
 namespace Driver
 
 def allHandlers : List (String × Handler) :=
-  Driver.WW.handlers ++ Driver.Sim.handlers ++ Driver.Helpers.handlers ++ Driver.MP.handlers ++ Driver.Graph.handlers ++ Driver.Meio.handlers ++ Driver.Serial.handlers ++ Driver.SS.handlers ++ Driver.RQ.handlers ++ Driver.FH.handlers ++ Driver.EOQ.handlers ++ Driver.GSM.handlers ++ Driver.Demand.handlers ++ Driver.SSM.handlers
+  Driver.WW.handlers ++ Driver.Sim.handlers ++ Driver.Helpers.handlers ++ Driver.MP.handlers ++ Driver.Graph.handlers ++ Driver.Meio.handlers ++ Driver.Serial.handlers ++ Driver.SS.handlers ++ Driver.RQ.handlers ++ Driver.FH.handlers ++ Driver.EOQ.handlers ++ Driver.GSM.handlers ++ Driver.Demand.handlers ++ Driver.SSM.handlers ++ Driver.SingleStage.handlers
 
 def dispatch (line : String) : String :=
   match Json.parse line with
